@@ -182,7 +182,7 @@ ORACLES = [
     ),
     Oracle(
         "history_valid_long",
-        history_case(24, 100, 6.0, regimes=(4, 6)),
+        history_case(24, 100, 6.0, regimes=(4, 6)).map(lambda c: dict(c, regime2=4 if c["regime2"] in (1, 0, 7) else c["regime2"])),
         check_history,
         classify=classify,
         quick=0,
@@ -192,7 +192,7 @@ ORACLES = [
     Oracle(
         "history_valid_large",
         st.builds(
-            lambda c, n, seed: dict(c, min=dict(pf=c["min"]["pf"], regime=c["min"]["regime"], init="default", n=n, seed=seed)),
+            lambda c, n, seed: dict(c, regime2=6, min=dict(pf=c["min"]["pf"], regime=c["min"]["regime"], init="default", n=n, seed=seed)),
             history_case(8, 4, 1.0, regimes=(4, 6)),
             st.integers(300, 1000),
             gen.small_seed,
